@@ -109,3 +109,8 @@ pub struct Snapshot {
     /// queue contents (stream ids in queue order)
     pub queues: Vec<(&'static str, Vec<u32>)>,
 }
+
+/// Per-stream state machine (`proto/streams/state.rs`): façade with plain arguments.
+pub mod state {
+    pub use crate::proto::{VerifError, VerifState};
+}
